@@ -7,38 +7,63 @@ from hypothesis import strategies as st
 from vlib.core import HypClause
 from vlib import util as U
 
-RULE = ("Hypothesis-drawn stacks of 1-6 layers (index in [1,4], thickness in [0,2] um incl. exactly 0, wavelength "
-        "0.3-2 um, ambient index 1-2.5, both polarisations, list-of-tuples and ndarray forms).  The angle of incidence is "
-        "constructed, never rejected: aoi = f * asin(min(1, n_min/n0)) with f in [0, 0.995], so every case lies below "
+RULE = ("Hypothesis-drawn stacks of 1-6 layers (index in [1,4] and, for the stack clauses, up to 1000; thickness in [0,2] um incl. "
+        "exactly 0, times 1 / 100 / 1e4 for thick layers; wavelength 0.3-2 um times 10**k, k in -100..100, thicknesses scaled with it; "
+        "ambient index 1-2.5, both polarisations).  The angle of incidence is constructed, never rejected: "
+        "aoi = f * asin(min(1, n_min/n0)) with f in [0, 1 - 1e-12], so every case lies below "
         "total internal reflection for every lossless medium of the stack.  Oracles (harness arithmetic only): "
         "R + T*(n_s cos th_s)/(n0 cos th0) = 1 (<= 1 when interior layers absorb, index written n + i*kappa as in "
         "tests/test_thinfilm.py); one-layer stack vs fresnel_rs/rp/ts/tp, Fresnel energy balance, the closed forms "
         "-sin(a-b)/sin(a+b) and tan(a-b)/tan(a+b), r_p = 0 at Brewster's angle, Snell invariant; a zero-thickness layer "
-        "inserted in front of any layer and a half-wave absentee layer (n d cos th = m lambda/2) leave r (resp. R, T) "
-        "unchanged; a batched (L,2,*B) stack equals the per-element loop.  Non-trivial = oblique incidence (f > 0.02) "
+        "inserted in front of any layer and a half-wave absentee layer (n d cos th = m lambda/2, m up to 1000) leave r (resp. R, T) "
+        "unchanged; a batched (L,2,*B) stack equals the per-element loop.  Every stack is handed over in a drawn representation: list of "
+        "tuples / list of lists / tuple of tuples / ndarray (C, Fortran, strided view), numbers as Python floats, all integers (Python "
+        "ints or int64 / int32 arrays), mixed int/float, float32; batched stacks also as lists of (index map, thickness map) pairs, "
+        "with thickness maps that hold exact zeros next to non-zero entries, whole zero layers and index maps equal to the ambient "
+        "index in places.  Scalars (wavelength, angle, ambient index) as Python numbers, numpy scalars and 0-d arrays, positional / "
+        "keyword / defaulted, 'S'/'P'.  Every call is made twice on the same objects (must agree), after an optional other call "
+        "(other ambient index / polarisation / wavelength / a batched call) in the same process; every array-like handed over is "
+        "compared with a copy taken before (bucket ...:argument-modified); kept batched results are re-checked after a later call "
+        "(...:result-overwritten).  Non-trivial = oblique incidence (f > 0.02) "
         "and, for stack clauses, at least one layer of non-zero thickness in front of the exit medium.")
 ASSUMPTIONS = ["the last entry of a stack is the exit medium (its own thickness only adds a phase to t), as in the code and its tests",
                "an absorbing index is written n + i*kappa (the sign used by tests/test_thinfilm.py); absorbing layers are interior only",
-               "numpy trigonometric functions are correct to a few ulp"]
+               "numpy trigonometric functions are correct to a few ulp",
+               "integer-valued indices / thicknesses / angles are valid real numbers whatever their Python or numpy type; a float32 stack is "
+               "evaluated by the library in float32 in places, so it is compared at float32 tolerance against its own rounded values"]
 
 FMAX = 0.995
 POL = st.sampled_from(['s', 'p'])
+FORMS = ['list', 'list', 'lists', 'tuple', 'array', 'array', 'array-F', 'array-strided']
+NUMS = ['float', 'float', 'float', 'int', 'int', 'mixed', 'f32', 'intarray32']
+WEXP = [0, 0, 0, 0, -6, -3, 3, 6, -100, 100]
+DMUL = [1, 1, 1, 1, 100, 10000]
+PRE = ['none', 'none', 'other-n0', 'other-pol', 'other-wvl', 'batched-first', 'normal-first']
 
 
 def _f():
     return st.one_of(U.nice_float(0.0, FMAX), U.nice_float(0.05, FMAX), U.nice_float(0.05, FMAX), U.nice_float(0.9, FMAX))
 
 
+def _f_wide():
+    """... and right up to grazing incidence / the critical angle of the rarest medium"""
+    return st.one_of(_f(), _f(), _f(), U.nice_float(0.995, 0.999999), st.sampled_from([0.0, 1 - 1e-9, 1 - 1e-12, 1e-12, 1e-300]))
+
+
 def _index():
     return st.one_of(U.nice_float(1.0, 4.0), U.nice_float(1.05, 4.0), U.nice_float(1.05, 4.0), st.sampled_from([1.0, 1.5, 2.0, 4.0, 1.38]))
+
+
+def _index_wide():
+    return st.one_of(_index(), _index(), _index(), U.nice_float(1.0, 30.0), U.nice_float(1.0, 1000.0), st.sampled_from([1.0, 2.0, 3.0]))
 
 
 def _thick():
     return st.one_of(U.nice_float(0.0, 2.0), U.nice_float(0.0, 2.0), st.sampled_from([0.0, 0.1, 0.5]))
 
 
-def _layers(lo, hi):
-    return st.lists(st.tuples(_index(), _thick()).map(list), min_size=lo, max_size=hi)
+def _layers(lo, hi, index=_index):
+    return st.lists(st.tuples(index(), _thick()).map(list), min_size=lo, max_size=hi)
 
 
 def _theta0(n0, nmin, f):
@@ -71,74 +96,255 @@ def _scalar(ctx, x, bucket, what):
     return complex(x)
 
 
+# ---- representations of one and the same stack ---------------------------------------------------
+def _numbers(layers, num):
+    """the (index, thickness) pairs as the numbers that will really be handed over: Python floats, Python ints, a mix, or float32-rounded"""
+    out = []
+    for i, (n, d) in enumerate(layers):
+        if num in ('int', 'intarray32') or (num == 'mixed' and i % 2 == 0):
+            out.append((int(max(1, round(n))), int(round(d))))
+        elif num == 'f32':
+            out.append((float(np.float32(n)), float(np.float32(d))))
+        else:
+            out.append((float(n), float(d)))
+    if num == 'f32':   # rounding to float32 must not push an index below 1
+        out = [(max(n, 1.0), d) for n, d in out]
+    return out
+
+
+def _build(pairs, form, num):
+    """pairs -> the object handed to the library.  Complex (absorbing) stacks use the same containers."""
+    cplx = any(isinstance(n, complex) for n, d in pairs)
+    if form == 'lists':
+        return [[n, d] for n, d in pairs]
+    if form == 'tuple':
+        return tuple((n, d) for n, d in pairs)
+    if form.startswith('array'):
+        dt = None
+        if not cplx:
+            dt = {'f32': np.float32, 'intarray32': np.int32}.get(num)
+        a = np.asarray([[n, d] for n, d in pairs], dtype=dt)
+        how = {'array': 'C', 'array-F': 'F', 'array-strided': 'strided'}[form]
+        return U.relayout(a, how)
+    if num == 'f32' and not cplx:
+        return [(np.float32(n), np.float32(d)) for n, d in pairs]
+    return [(n, d) for n, d in pairs]
+
+
+def _snapshot(obj):
+    """a deep, comparable copy of anything array-like"""
+    if isinstance(obj, np.ndarray):
+        return ('a', obj.dtype.str, obj.shape, obj.copy())
+    if isinstance(obj, (list, tuple)):
+        return (type(obj).__name__, [_snapshot(x) for x in obj])
+    return ('s', type(obj).__name__, obj)
+
+
+def _same(a, b):
+    if a[0] != b[0]:
+        return False
+    if a[0] == 'a':
+        return a[1] == b[1] and a[2] == b[2] and bool(np.all((a[3] == b[3]) | ((a[3] != a[3]) & (b[3] != b[3]))))
+    if a[0] == 's':
+        return a[1] == b[1] and (a[2] == b[2] or (a[2] != a[2] and b[2] != b[2]))
+    return len(a[1]) == len(b[1]) and all(_same(x, y) for x, y in zip(a[1], b[1]))
+
+
+def _untouched(ctx, obj, snap, bucket, what):
+    ctx.require(_same(_snapshot(obj), snap), bucket + ':argument-modified', '%s was modified by the call: now %r' % (what, obj if not isinstance(obj, np.ndarray) else obj.tolist()))
+
+
+def _scalar_arg(v, how):
+    if how == 'np':
+        return np.float64(v)
+    if how == '0d':
+        return np.array(v)
+    if how == 'int' and float(v) == int(v):
+        return int(v)
+    return v
+
+
+ARGT = st.fixed_dictionaries({'wvl': st.sampled_from(['py', 'py', 'np', '0d']), 'aoi': st.sampled_from(['py', 'py', 'np', '0d', 'int']),
+                              'n0': st.sampled_from(['py', 'py', 'np', '0d', 'int']), 'upper': st.booleans(),
+                              'call': st.sampled_from(['positional', 'positional', 'keyword', 'defaults'])})
+ARGT0 = {'wvl': 'py', 'aoi': 'py', 'n0': 'py', 'upper': False, 'call': 'positional'}
+
+
+def _call_rt(ctx, stack, wvl, pol, aoi_deg, n0, argt=ARGT0):
+    """multilayer_stack_rt through the drawn calling convention; returns (r, t, the argument objects that were handed over)"""
+    from prysm import thinfilm
+    w = _scalar_arg(wvl, argt['wvl'])
+    a = _scalar_arg(aoi_deg, argt['aoi'])
+    n = _scalar_arg(n0, argt['n0'])
+    p = pol.upper() if argt['upper'] else pol
+    snaps = [(x, _snapshot(x), name) for x, name in ((w, 'wavelength'), (a, 'aoi'), (n, 'ambient_index')) if isinstance(x, np.ndarray)]
+    if argt['call'] == 'keyword':
+        r, t = ctx.call(thinfilm.multilayer_stack_rt, stack=stack, wavelength=w, polarization=p, aoi=a, ambient_index=n)
+    elif argt['call'] == 'defaults':
+        kw = {}
+        if aoi_deg != 0:
+            kw['aoi'] = a
+        if n0 != 1:
+            kw['ambient_index'] = n
+        r, t = ctx.call(thinfilm.multilayer_stack_rt, stack, w, p, **kw)
+    else:
+        r, t = ctx.call(thinfilm.multilayer_stack_rt, stack, w, p, a, n)
+    for x, s, name in snaps:
+        _untouched(ctx, x, s, 'stack_rt', 'the 0-d array given as %s' % name)
+    return r, t
+
+
+def _prior(ctx, pre, stack, wvl, pol, aoi, n0):
+    """history inside one process: another valid evaluation (of the very same stack object) before the checked one"""
+    from prysm import thinfilm
+    if pre == 'other-n0':
+        ctx.call(thinfilm.multilayer_stack_rt, stack, wvl, pol, 0.0, n0 + 0.25)
+    elif pre == 'other-pol':
+        ctx.call(thinfilm.multilayer_stack_rt, stack, wvl, 'p' if pol == 's' else 's', aoi, n0)
+    elif pre == 'other-wvl':
+        ctx.call(thinfilm.multilayer_stack_rt, stack, wvl * 1.37, pol, aoi, n0)
+    elif pre == 'normal-first':
+        ctx.call(thinfilm.multilayer_stack_rt, stack, wvl, pol)
+    elif pre == 'batched-first':
+        a = np.asarray(stack)
+        if a.ndim == 2:
+            ctx.call(thinfilm.multilayer_stack_rt, np.stack([a, a], axis=-1), wvl, pol, aoi, n0)
+
+
+def _twice(ctx, stack, wvl, pol, aoi, n0, argt, what):
+    """evaluate, evaluate again on the same objects: same answer, nothing handed over has changed"""
+    snap = _snapshot(stack)
+    r, t = _call_rt(ctx, stack, wvl, pol, aoi, n0, argt)
+    _untouched(ctx, stack, snap, 'stack_rt', 'the stack (%s)' % what)
+    r2, t2 = _call_rt(ctx, stack, wvl, pol, aoi, n0, argt)
+    _untouched(ctx, stack, snap, 'stack_rt', 'the stack (%s), second call' % what)
+    ok = np.shape(r) == np.shape(r2) and np.allclose(r, r2, rtol=1e-12, atol=1e-13) and np.allclose(t, t2, rtol=1e-12, atol=1e-13)
+    ctx.require(ok, 'stack_rt:not-repeatable', '%s: the same call twice gives r=%r then %r, t=%r then %r' % (what, r, r2, t, t2))
+    return r, t
+
+
 # ---- energy conservation -------------------------------------------------------------------------
 def strat_energy(tier):
     return st.fixed_dictionaries({
-        'layers': _layers(1, 6), 'wvl': U.nice_float(0.3, 2.0), 'n0': st.one_of(st.just(1.0), U.nice_float(1.0, 2.5)),
-        'f': _f(), 'pol': POL, 'form': st.sampled_from(['list', 'array']),
-        'kappa': st.one_of(st.just([]), st.lists(st.one_of(st.just(0.0), U.nice_float(0.0, 1.5)), min_size=1, max_size=5)),
+        'layers': _layers(1, 6, _index_wide), 'wvl': U.nice_float(0.3, 2.0), 'n0': st.one_of(st.just(1.0), U.nice_float(1.0, 2.5)),
+        'f': _f_wide(), 'pol': POL, 'form': st.sampled_from(FORMS), 'num': st.sampled_from(NUMS),
+        'kappa': st.one_of(st.just([]), st.just([]), st.lists(st.one_of(st.just(0.0), U.nice_float(0.0, 1.5)), min_size=1, max_size=5)),
+        'wexp': st.sampled_from(WEXP), 'dmul': st.sampled_from(DMUL), 'argt': ARGT, 'pre': st.sampled_from(PRE),
     })
+
+
+def _energy_tol(cmin, f32=False):
+    """observed on correct code (4e4 stacks, indices to 1000, f to 1 - 1e-12, d/lambda to 1e4): |R+T-1| <= 1e-15/cmin^2 and <= 1.1e-12/cmin"""
+    if f32:
+        return 1e-5 / cmin ** 2     # observed <= 1e-7/cmin^2 when the library works on float32 numbers
+    return min(1e-10 / cmin ** 2, 1e-9 / cmin)
 
 
 def check_energy(case, ctx):
     """R + T(n_s cos th_s / n0 cos th0) == 1 for lossless stacks; <= 1 when interior layers absorb."""
-    layers, wvl, n0, f, pol = case['layers'], case['wvl'], case['n0'], case['f'], case['pol']
-    L = len(layers)
+    wvl, n0, f, pol = case['wvl'], case['n0'], case['f'], case['pol']
+    form, num = case['form'], case.get('num', 'float')
+    argt, pre = case.get('argt', ARGT0), case.get('pre', 'none')
+    wexp = case.get('wexp', 0)
+    if num == 'f32':
+        wexp = max(-6, min(6, wexp))    # keep thicknesses inside the float32 range
+    scale = 10.0 ** wexp
+    L = len(case['layers'])
     kap = [0.0] * L
     for i, k in enumerate(case['kappa'][:L - 1]):   # never the exit medium
         kap[i] = k
     absorbing = any(k > 0 for k in kap)
+    if absorbing and num != 'float':
+        num = 'float'       # complex stacks have one numeric representation
+    layers = _numbers(case['layers'], num)
+    dmul = 1 if absorbing else case.get('dmul', 1)   # sin / cos of the complex phase thickness overflow for kappa d / lambda > ~110: not asserted
+    layers = [(n, d * dmul) for n, d in layers]
+    if wexp:
+        layers = [(n, d * scale) for n, d in layers]
+        wvl = wvl * scale
+        if num == 'f32':
+            layers = [(n, float(np.float32(d))) for n, d in layers]
+        elif num in ('int', 'mixed', 'intarray32'):
+            num = 'float'   # a scaled thickness is not an integer any more
+    if num == 'intarray32' and not form.startswith('array'):
+        num = 'int'
+    if num == 'int' and n0 == 1.0:
+        n0 = 1
     lossless_n = [n for (n, d), k in zip(layers, kap) if k == 0]
     th0 = _theta0(n0, min(lossless_n), f)
     ns = layers[-1][0]
     if absorbing:
-        stack = [(complex(n, k), d) for (n, d), k in zip(layers, kap)]
+        pairs = [(complex(n, k), d) for (n, d), k in zip(layers, kap)]
     else:
-        stack = [(n, d) for n, d in layers]
-    if case['form'] == 'array':
-        stack = np.asarray(stack)
+        pairs = list(layers)
+    stack = _build(pairs, form, num)
     ctx.nt(f > 0.02 and any(d > 0 for n, d in layers[:-1]))
-    ctx.label('L=%d' % L, 'pol:' + pol, 'absorbing' if absorbing else 'lossless', 'form:' + case['form'],
-              'normal' if f == 0 else ('oblique>0.9' if f > 0.9 else 'oblique'), 'n0=1' if n0 == 1 else 'n0>1')
-    r, t = _rt(ctx, stack, wvl, pol, math.degrees(th0), n0)
+    allint = np.asarray(stack).dtype.kind in 'iu'
+    ctx.label('L=%d' % L, 'pol:' + pol, 'absorbing' if absorbing else 'lossless', 'form:' + form, 'num:' + num,
+              'normal' if f == 0 else ('grazing>0.995' if f > FMAX else ('oblique>0.9' if f > 0.9 else 'oblique')), 'n0=1' if n0 == 1 else 'n0>1',
+              'dtype:%s' % np.asarray(stack).dtype, 'all-int-oblique' if allint and f > 0.02 else 'not-all-int-oblique',
+              'wexp:%s' % ('0' if wexp == 0 else 'extreme'), 'thick' if dmul > 1 else 'thin',
+              'n>30' if max(lossless_n) > 30 else 'n<=30', 'pre:' + pre, 'call:' + argt['call'])
+    aoi = math.degrees(th0)
+    desc = 'stack %r (%s, %s) wvl=%r pol=%s aoi=%r deg n0=%r' % (pairs, form, np.asarray(stack).dtype, wvl, pol, aoi, n0)
+    _prior(ctx, pre, stack, wvl, pol, aoi, n0)
+    r, t = _twice(ctx, stack, wvl, pol, aoi, n0, argt, desc)
     r = _scalar(ctx, r, 'stack_rt:nonfinite', 'r')
     t = _scalar(ctx, t, 'stack_rt:nonfinite', 't')
     R, T = _RT(r, t, n0, th0, ns)
     cmin = min([math.cos(th0)] + [_cos_in(n0, th0, n) for n in lossless_n])
-    tol = 1e-10 / cmin ** 2   # observed <= 2e-14/cmin on correct code
-    what = 'stack %r wvl=%r pol=%s aoi=%r deg n0=%r: R=%.17g T=%.17g R+T-1=%.3g (tol %.3g)' % (
-        [tuple(x) for x in np.asarray(stack).tolist()] if not absorbing else stack, wvl, pol, math.degrees(th0), n0, R, T, R + T - 1, tol)
+    cmin = max(cmin, 1e-150)
+    tol = _energy_tol(cmin, num == 'f32')
+    what = '%s: R=%.17g T=%.17g R+T-1=%.3g (tol %.3g)' % (desc, R, T, R + T - 1, tol)
+    cls = ':all-integer-stack' if allint else (':float32-stack' if num == 'f32' else '')
     if absorbing:
         ctx.require(R + T <= 1 + tol, 'energy:%s:absorbing-gain' % pol, what)
         ctx.require(R >= 0 and T >= 0, 'energy:%s:negative' % pol, what)
     else:
-        ctx.require(abs(R + T - 1) <= tol, 'energy:%s:lossless' % pol, what)
+        ctx.require(abs(R + T - 1) <= tol, 'energy:%s:lossless%s' % (pol, cls), what)
 
 
 # ---- single interface ----------------------------------------------------------------------------
 def strat_fresnel(tier):
     return st.fixed_dictionaries({
-        'n0': st.one_of(st.just(1.0), U.nice_float(1.0, 4.0), U.nice_float(1.3, 4.0)), 'n1': _index(), 'f': _f(), 'd': _thick(),
-        'wvl': U.nice_float(0.3, 2.0)})
+        'n0': st.one_of(st.just(1.0), U.nice_float(1.0, 4.0), U.nice_float(1.3, 4.0)), 'n1': _index(), 'f': _f_wide(), 'd': _thick(),
+        'wvl': U.nice_float(0.3, 2.0), 'ints': st.sampled_from([False, False, True]), 'form': st.sampled_from(FORMS), 'argt': ARGT,
+        'wexp': st.sampled_from(WEXP)})
 
 
 def check_fresnel(case, ctx):
     """one-layer stack == fresnel_r*/|t*|; Fresnel energy balance and closed forms; r_p(Brewster) = 0; Snell invariant."""
     from prysm import thinfilm as tf
     n0, n1, f, d, wvl = case['n0'], case['n1'], case['f'], case['d'], case['wvl']
+    ints, form, argt = case.get('ints', False), case.get('form', 'list'), case.get('argt', ARGT0)
+    scale = 10.0 ** case.get('wexp', 0)
+    if ints:    # every number an integer (Python ints): still real indices >= 1 and a thickness >= 0
+        n0, n1, d = int(max(1, round(n0))), int(max(1, round(n1))), int(round(d))
+    else:
+        d, wvl = d * scale, wvl * scale
     th0 = _theta0(n0, n1, f)
     s1 = n0 * math.sin(th0) / n1
     th1 = math.asin(min(1.0, s1))
     c0, c1 = math.cos(th0), math.cos(th1)
     ctx.nt(f > 0.02 and n0 != n1)
-    ctx.label('n0<n1' if n0 < n1 else ('n0>n1' if n0 > n1 else 'n0==n1'), 'normal' if f == 0 else 'oblique', 'd=0' if d == 0 else 'd>0')
+    ctx.label('n0<n1' if n0 < n1 else ('n0>n1' if n0 > n1 else 'n0==n1'), 'normal' if f == 0 else 'oblique', 'd=0' if d == 0 else 'd>0',
+              'ints' if ints else 'floats', 'form:' + form, 'ints-oblique' if ints and f > 0.02 and n0 != n1 else 'other')
     adm = n1 * c1 / (n0 * c0)
-    tol = 1e-10 / min(c0, c1) ** 2
+    cm = max(min(c0, c1), 1e-150)
+    tol = min(1e-10 / cm ** 2, 1e-9 / cm)
     desc = 'n0=%r n1=%r th0=%r rad th1=%r rad' % (n0, n1, th0, th1)
     fr = {}
+    how = {'py': 'py', 'int': 'py'}.get(argt['aoi'], argt['aoi'])
     for name in ('rs', 'ts', 'rp', 'tp'):
-        v = ctx.call(getattr(tf, 'fresnel_' + name), n0, n1, th0, th1)
+        v = ctx.call(getattr(tf, 'fresnel_' + name), _scalar_arg(n0, argt['n0'] if not ints else 'py'), n1, _scalar_arg(th0, how), _scalar_arg(th1, how))
         fr[name] = _scalar(ctx, v, 'fresnel_%s:nonfinite' % name, 'fresnel_' + name)
+        # array-valued angles are evaluated element by element
+        tha, thb_ = np.array([th0, 0.5 * th0, 0.0]), np.array([th1, math.asin(min(1.0, n0 * math.sin(0.5 * th0) / n1)), 0.0])
+        ka, kb = tha.copy(), thb_.copy()
+        va = np.asarray(ctx.call(getattr(tf, 'fresnel_' + name), n0, n1, tha, thb_))
+        ctx.require(va.shape == (3,) and abs(complex(va[0]) - fr[name]) <= 1e-14 * max(1.0, abs(fr[name])), 'fresnel_%s:array-vs-scalar' % name,
+                    '%s: fresnel_%s on an array of angles gives %r, scalar call %r' % (desc, name, va, fr[name]))
+        ctx.require(np.array_equal(tha, ka) and np.array_equal(thb_, kb), 'fresnel_%s:argument-modified' % name, 'the angle arrays were modified')
     # energy balance of the closed-form coefficients
     for p in 'sp':
         e = abs(fr['r' + p]) ** 2 + abs(fr['t' + p]) ** 2 * adm
@@ -150,15 +356,17 @@ def check_fresnel(case, ctx):
         want_p = abs(math.tan(th0 - th1) / math.tan(th0 + th1))
         ctx.require(abs(abs(fr['rs']) - want_s) <= tol, 'fresnel_rs:closed-form', '%s: |rs|=%.17g want |sin(a-b)/sin(a+b)|=%.17g' % (desc, abs(fr['rs']), want_s))
         ctx.require(abs(abs(fr['rp']) - want_p) <= tol, 'fresnel_rp:closed-form', '%s: |rp|=%.17g want |tan(a-b)/tan(a+b)|=%.17g' % (desc, abs(fr['rp']), want_p))
-    # one-layer stack (a single interface; the layer's own thickness only adds a phase to t)
+    # one-layer stack (a single interface; the layer's own thickness only adds a phase to t), in the drawn representation
+    one = _build([(n1, d)], form, 'int' if ints else 'float')
+    cls = ':all-integer-stack' if np.asarray(one).dtype.kind in 'iu' else ''
     for p in 'sp':
-        r, t = _rt(ctx, [(n1, d)], wvl, p, math.degrees(th0), n0)
+        r, t = _twice(ctx, one, wvl, p, math.degrees(th0), n0, argt, '%s one-layer stack %r' % (desc, one))
         r = _scalar(ctx, r, 'stack_rt:nonfinite', 'r')
         t = _scalar(ctx, t, 'stack_rt:nonfinite', 't')
-        ctx.require(abs(r - fr['r' + p]) <= tol, 'fresnel_r%s:vs-stack' % p,
-                    '%s d=%r wvl=%r: one-layer stack r_%s=%r, fresnel_r%s=%r' % (desc, d, wvl, p, r, p, fr['r' + p]))
-        ctx.require(abs(abs(t) - abs(fr['t' + p])) <= tol, 'fresnel_t%s:vs-stack' % p,
-                    '%s d=%r wvl=%r: one-layer stack |t_%s|=%.17g, |fresnel_t%s|=%.17g' % (desc, d, wvl, p, abs(t), p, abs(fr['t' + p])))
+        ctx.require(abs(r - fr['r' + p]) <= tol, 'fresnel_r%s:vs-stack%s' % (p, cls),
+                    '%s d=%r wvl=%r: one-layer stack %r r_%s=%r, fresnel_r%s=%r' % (desc, d, wvl, one, p, r, p, fr['r' + p]))
+        ctx.require(abs(abs(t) - abs(fr['t' + p])) <= tol, 'fresnel_t%s:vs-stack%s' % (p, cls),
+                    '%s d=%r wvl=%r: one-layer stack %r |t_%s|=%.17g, |fresnel_t%s|=%.17g' % (desc, d, wvl, one, p, abs(t), p, abs(fr['t' + p])))
     # Brewster
     thb = float(ctx.call(tf.brewsters_angle, n0, n1, False))
     thb_deg = float(ctx.call(tf.brewsters_angle, n0, n1))
@@ -167,8 +375,8 @@ def check_fresnel(case, ctx):
     th1b = math.asin(n0 * math.sin(thb) / n1)   # always below the critical angle
     rpb = _scalar(ctx, ctx.call(tf.fresnel_rp, n0, n1, thb, th1b), 'fresnel_rp:nonfinite', 'fresnel_rp')
     ctx.require(abs(rpb) <= 1e-12, 'fresnel_rp:brewster', 'n0=%r n1=%r: fresnel_rp at Brewster angle %r rad = %r, expected 0' % (n0, n1, thb, rpb))
-    rb, _ = _rt(ctx, [(n1, d)], wvl, 'p', thb_deg, n0)
-    ctx.require(abs(complex(rb)) <= 1e-12, 'stack_rt:brewster', 'n0=%r n1=%r: stack r_p at Brewster angle = %r' % (n0, n1, rb))
+    rb, _ = _rt(ctx, one, wvl, 'p', thb_deg, n0)
+    ctx.require(abs(complex(rb)) <= 1e-12, 'stack_rt:brewster' + cls, 'n0=%r n1=%r: stack %r r_p at Brewster angle = %r' % (n0, n1, one, rb))
     if n0 != n1:
         rsb = _scalar(ctx, ctx.call(tf.fresnel_rs, n0, n1, thb, th1b), 'fresnel_rs:nonfinite', 'fresnel_rs')
         ctx.require(abs(rsb) > 1e-6 * abs(n0 - n1), 'fresnel_rs:brewster', 's light must still be reflected at the Brewster angle, got %r' % rsb)
@@ -192,59 +400,89 @@ def check_fresnel(case, ctx):
 # ---- zero-thickness and absentee layers ----------------------------------------------------------
 def strat_absentee(tier):
     return st.fixed_dictionaries({
-        'layers': _layers(1, 5), 'wvl': U.nice_float(0.3, 2.0), 'n0': st.one_of(st.just(1.0), U.nice_float(1.0, 2.5)),
-        'f': _f(), 'pol': POL, 'n_new': _index(), 'pos': st.integers(0, 4), 'm': st.integers(1, 3)})
+        'layers': _layers(1, 5, _index_wide), 'wvl': U.nice_float(0.3, 2.0), 'n0': st.one_of(st.just(1.0), U.nice_float(1.0, 2.5)),
+        'f': _f_wide(), 'pol': POL, 'n_new': _index_wide(), 'pos': st.integers(0, 4), 'm': st.sampled_from([1, 2, 3, 1, 2, 3, 50, 1000]),
+        'form': st.sampled_from(FORMS), 'num': st.sampled_from(['float', 'float', 'int', 'mixed']), 'wexp': st.sampled_from(WEXP),
+        'argt': ARGT, 'pre': st.sampled_from(PRE)})
 
 
 def check_absentee(case, ctx):
     """zero-thickness layer in front of any layer changes r, t by nothing; half-wave layer leaves R, T unchanged."""
-    layers, wvl, n0, f, pol = case['layers'], case['wvl'], case['n0'], case['f'], case['pol']
+    wvl, n0, f, pol = case['wvl'], case['n0'], case['f'], case['pol']
     nn, m = case['n_new'], case['m']
+    form, num, argt, pre = case.get('form', 'list'), case.get('num', 'float'), case.get('argt', ARGT0), case.get('pre', 'none')
+    wexp = case.get('wexp', 0)
+    if wexp:
+        num = 'float'
+    layers = _numbers(case['layers'], num)
+    if wexp:
+        layers = [(n, d * 10.0 ** wexp) for n, d in layers]
+        wvl = wvl * 10.0 ** wexp
+    if num == 'int':
+        nn = int(max(1, round(nn)))
+        if n0 == 1.0:
+            n0 = 1
     L = len(layers)
     pos = case['pos'] % L          # insert *before* layer pos, so the exit medium stays the exit medium
     th0 = _theta0(n0, min([n for n, d in layers] + [nn]), f)
     aoi = math.degrees(th0)
     ns = layers[-1][0]
-    base = [(n, d) for n, d in layers]
+    base = _build(layers, form, num)
     ctx.nt(f > 0.02)
     ctx.label('L=%d' % L, 'pos=first' if pos == 0 else ('pos=before-exit' if pos == L - 1 else 'pos=inner'), 'm=%d' % m,
-              'normal' if f == 0 else 'oblique', 'pol:' + pol)
-    r0, t0 = _rt(ctx, base, wvl, pol, aoi, n0)
+              'normal' if f == 0 else ('grazing>0.995' if f > FMAX else 'oblique'), 'pol:' + pol, 'form:' + form, 'num:' + num,
+              'dtype:%s' % np.asarray(base).dtype, 'wexp:%s' % ('0' if wexp == 0 else 'extreme'), 'pre:' + pre)
+    desc = 'stack %r (%s) + layer n=%r before #%d, wvl=%r pol=%s aoi=%r n0=%r' % (layers, form, nn, pos, wvl, pol, aoi, n0)
+    _prior(ctx, pre, base, wvl, pol, aoi, n0)
+    r0, t0 = _twice(ctx, base, wvl, pol, aoi, n0, argt, desc)
     r0 = _scalar(ctx, r0, 'stack_rt:nonfinite', 'r')
     t0 = _scalar(ctx, t0, 'stack_rt:nonfinite', 't')
     cmin = min([math.cos(th0)] + [_cos_in(n0, th0, n) for n in [x[0] for x in layers] + [nn]])
-    tol = 1e-10 / cmin ** 2
-    desc = 'stack %r + layer n=%r before #%d, wvl=%r pol=%s aoi=%r n0=%r' % (base, nn, pos, wvl, pol, aoi, n0)
-    # zero thickness
-    z = base[:pos] + [(nn, 0.0)] + base[pos:]
-    r1, t1 = _rt(ctx, z, wvl, pol, aoi, n0)
+    cmin = max(cmin, 1e-150)
+    tol = min(1e-10 / cmin ** 2, 1e-9 / cmin)
+    # zero thickness (an integer 0 in an all-integer stack)
+    z = _build(layers[:pos] + [(nn, 0 if num == 'int' else 0.0)] + layers[pos:], form, num)
+    r1, t1 = _call_rt(ctx, z, wvl, pol, aoi, n0, argt)
     ctx.require(abs(complex(r1) - r0) <= tol * max(1, abs(r0)) and abs(complex(t1) - t0) <= tol * max(1, abs(t0)), 'zero-thickness:' + pol,
                 '%s: d=0 changes r %r -> %r, t %r -> %r' % (desc, r0, r1, t0, t1))
     # half-wave absentee: n d cos(theta) = m lambda / 2
-    dh = m * wvl / (2 * nn * _cos_in(n0, th0, nn))
-    h = base[:pos] + [(nn, dh)] + base[pos:]
-    r2, t2 = _rt(ctx, h, wvl, pol, aoi, n0)
-    R0, T0 = _RT(r0, t0, n0, th0, ns)
-    R2, T2 = _RT(complex(r2), complex(t2), n0, th0, ns)
-    tolh = 1e-9 / cmin ** 2 * m
-    ctx.require(abs(R2 - R0) <= tolh and abs(T2 - T0) <= tolh, 'absentee:' + pol,
-                '%s: half-wave layer d=%r (m=%d) changes R %.17g -> %.17g, T %.17g -> %.17g' % (desc, dh, m, R0, R2, T0, T2))
+    cn = _cos_in(n0, th0, nn)
+    dh = m * wvl / (2 * nn * cn) if cn > 0 else float('inf')   # cn == 0: the harness' own cosine has lost all digits (f within 1e-9 of grazing)
+    if math.isfinite(dh):
+        h = _build([(float(n), float(d)) for n, d in layers[:pos]] + [(float(nn), dh)] + [(float(n), float(d)) for n, d in layers[pos:]], form, 'float')
+        r2, t2 = _call_rt(ctx, h, wvl, pol, aoi, n0, argt)
+        R0, T0 = _RT(r0, t0, n0, th0, ns)
+        R2, T2 = _RT(complex(r2), complex(t2), n0, th0, ns)
+        tolh = 1e-9 / cmin ** 2 * m
+        ctx.require(abs(R2 - R0) <= tolh and abs(T2 - T0) <= tolh, 'absentee:' + pol,
+                    '%s: half-wave layer d=%r (m=%d) changes R %.17g -> %.17g, T %.17g -> %.17g' % (desc, dh, m, R0, R2, T0, T2))
+    # the base stack once more, after the other coatings were evaluated
+    r3, t3 = _call_rt(ctx, base, wvl, pol, aoi, n0, argt)
+    ctx.require(abs(complex(r3) - r0) <= 1e-12 * max(1, abs(r0)) and abs(complex(t3) - t0) <= 1e-12 * max(1, abs(t0)), 'stack_rt:not-repeatable',
+                '%s: the base stack evaluated again gives r %r -> %r, t %r -> %r' % (desc, r0, r3, t0, t3))
 
 
 # ---- batch == loop -------------------------------------------------------------------------------
+BFORMS = ['array', 'array', 'array', 'array-F', 'array-strided', 'pairs-lists', 'pairs-tuples']
+BNUMS = ['float', 'int', 'float', 'f32', 'float', 'int', 'float']
+SPECIALS = ['none', 'zeros', 'zeros', 'zeros-most', 'zero-layer', 'one-zero', 'ambient-index', 'equal-neighbour', 'zeros+ambient']
+
+
 def strat_batch(tier):
     mx = 4 if tier == 'quick' else 6
     bshape = st.one_of(st.lists(st.integers(1, mx), min_size=1, max_size=1), st.lists(st.integers(1, mx), min_size=2, max_size=3))
     return st.fixed_dictionaries({
         'L': st.integers(1, 5), 'bshape': bshape, 'seed': U.seeds, 'wvl': U.nice_float(0.3, 2.0),
-        'n0': st.one_of(st.just(1.0), U.nice_float(1.0, 2.0)), 'f': _f(), 'pol': POL,
-        'vary': st.sampled_from(['both', 'thickness', 'index']), 'absorbing': st.booleans()})
+        'n0': st.one_of(st.just(1.0), U.nice_float(1.0, 2.0)), 'f': _f_wide(), 'pol': POL,
+        'vary': st.sampled_from(['both', 'thickness', 'index']), 'absorbing': st.booleans(),
+        'special': st.sampled_from(SPECIALS), 'form': st.sampled_from(BFORMS), 'num': st.sampled_from(BNUMS), 'wexp': st.sampled_from(WEXP),
+        'argt': ARGT, 'order': st.sampled_from(['batch-first', 'batch-first', 'loop-first'])})
 
 
-def check_batch(case, ctx):
-    """multilayer_stack_rt on a (L, 2, *B) array == the same function called once per element of B."""
-    from prysm import thinfilm as tf
-    L, B, wvl, n0, f, pol = case['L'], tuple(case['bshape']), case['wvl'], case['n0'], case['f'], case['pol']
+def _batch_maps(case):
+    """index and thickness maps (L, *B), with the drawn special values planted among generic ones"""
+    L, B, n0 = case['L'], tuple(case['bshape']), case['n0']
+    num, special = case.get('num', 'float'), case.get('special', 'none')
     rng = U.rng_of(case['seed'], 17)
     n = rng.uniform(1.0, 4.0, (L,) + B)
     d = rng.uniform(0.0, 2.0, (L,) + B)
@@ -252,30 +490,106 @@ def check_batch(case, ctx):
         n = np.broadcast_to(n.reshape(L, -1)[:, :1].reshape((L,) + (1,) * len(B)), (L,) + B).copy()
     if case['vary'] == 'index':
         d = np.broadcast_to(d.reshape(L, -1)[:, :1].reshape((L,) + (1,) * len(B)), (L,) + B).copy()
+    if num == 'int':
+        n, d = np.maximum(1, np.rint(n)), np.rint(d * 1.5)
+    r2 = U.rng_of(case['seed'], 18)
+    u = r2.uniform(0, 1, (L,) + B)
+    if special in ('zeros', 'zeros+ambient'):
+        d[u < 0.3] = 0.0
+    elif special == 'zeros-most':
+        d[u < 0.8] = 0.0
+    elif special == 'zero-layer':
+        d[int(r2.integers(0, L))] = 0.0
+    elif special == 'one-zero':
+        d[np.unravel_index(int(np.argmin(u)), u.shape)] = 0.0
+    if special in ('ambient-index', 'zeros+ambient') and n0 >= 1.0:
+        v = r2.uniform(0, 1, (L,) + B)
+        n[v < 0.3] = n0 if num != 'int' else max(1, round(n0))
+    if special == 'equal-neighbour' and L > 1:
+        k = int(r2.integers(0, L - 1))
+        v = r2.uniform(0, 1, B) < 0.5
+        n[k + 1][v] = n[k][v]
+    return n, d
+
+
+def check_batch(case, ctx):
+    """multilayer_stack_rt on a (L, 2, *B) array == the same function called once per element of B."""
+    from prysm import thinfilm as tf
+    L, B, wvl, n0, f, pol = case['L'], tuple(case['bshape']), case['wvl'], case['n0'], case['f'], case['pol']
+    form, num, argt, special = case.get('form', 'array'), case.get('num', 'float'), case.get('argt', ARGT0), case.get('special', 'none')
+    wexp = case.get('wexp', 0)
+    if wexp and num == 'int':
+        num = 'float'
+    if num == 'f32':
+        wexp = max(-6, min(6, wexp))    # keep thicknesses inside the float32 range
+    n, d = _batch_maps(dict(case, num=num))
+    if wexp:
+        d = d * 10.0 ** wexp
+        wvl = wvl * 10.0 ** wexp
+    if num == 'f32':
+        n, d = np.maximum(n.astype(np.float32), np.float32(1)), d.astype(np.float32)
+    elif num == 'int':
+        n, d = n.astype(np.int64), d.astype(np.int64)
+        if n0 == 1.0:
+            n0 = 1
     th0 = _theta0(n0, float(n.min()), f)
     aoi = math.degrees(th0)
-    if case['absorbing'] and L > 1:
+    cplx = case['absorbing'] and L > 1 and num == 'float'
+    if cplx:
+        rng = U.rng_of(case['seed'], 19)
         n = n + 1j * rng.uniform(0, 1, (L,) + B) * (np.arange(L) < L - 1).reshape((L,) + (1,) * len(B))
-    stack = np.stack([n, d], axis=1)   # (L, 2, *B)
+    if form.startswith('array'):
+        stack = U.relayout(np.stack([n, d.astype(n.dtype) if cplx else d], axis=1), {'array': 'C', 'array-F': 'F', 'array-strided': 'strided'}[form])   # (L, 2, *B)
+    elif form == 'pairs-lists':
+        stack = [[n[k].copy(), (d[k].astype(n.dtype) if cplx else d[k]).copy()] for k in range(L)]
+    else:
+        stack = tuple((n[k].copy(), (d[k].astype(n.dtype) if cplx else d[k]).copy()) for k in range(L))
+    sshape = np.asarray(stack).shape
+    nz = int(np.sum(d == 0))
+    mixed_zero = any(0 < int(np.sum(d[k] == 0)) < d[k].size for k in range(L))
     ctx.nt(f > 0.02 and int(np.prod(B)) > 1)
     ctx.label('ndim=%d' % len(B), 'L=%d' % L, 'size1' if int(np.prod(B)) == 1 else 'size>1', 'has-unit-axis' if 1 in B else 'no-unit-axis',
-              'vary:' + case['vary'], 'pol:' + pol, 'complex' if np.iscomplexobj(n) else 'real', 'normal' if f == 0 else 'oblique')
-    r, t = ctx.call(tf.multilayer_stack_rt, stack, wvl, pol, aoi, n0)
-    U.check_shape(r, B, 'batch:r')
-    U.check_shape(t, B, 'batch:t')
+              'vary:' + case['vary'], 'pol:' + pol, 'complex' if cplx else 'real', 'normal' if f == 0 else 'oblique',
+              'special:' + special, 'form:' + form, 'num:' + num, 'layer-with-zero-and-nonzero-thickness' if mixed_zero else 'no-mixed-zero-layer',
+              'wexp:%s' % ('0' if wexp == 0 else 'extreme'), 'order:' + case.get('order', 'batch-first'), 'call:' + argt['call'])
+    desc = 'stack shape %s (%s, %s) special=%s (%d zero thicknesses) aoi=%r n0=%r wvl=%r' % (sshape, form, np.asarray(stack).dtype, special, nz, aoi, n0, wvl)
     rl = np.empty(B, complex)
     tl = np.empty(B, complex)
-    for idx in np.ndindex(*B):
-        one = [(n[(k,) + idx], d[(k,) + idx]) for k in range(L)]
-        a, b = ctx.call(tf.multilayer_stack_rt, one, wvl, pol, aoi, n0)
-        rl[idx], tl[idx] = complex(a), complex(b)
-    U.check_close(r, rl, 1e-11, 'batch:%s:r' % pol, 'batched r vs loop, stack shape %s aoi=%r n0=%r wvl=%r' % (stack.shape, aoi, n0, wvl), atol=1e-13)
-    U.check_close(t, tl, 1e-11, 'batch:%s:t' % pol, 'batched t vs loop, stack shape %s aoi=%r n0=%r wvl=%r' % (stack.shape, aoi, n0, wvl), atol=1e-13)
+
+    def loop():
+        for idx in np.ndindex(*B):
+            one = [(n[(k,) + idx], d[(k,) + idx]) for k in range(L)]
+            a, b = ctx.call(tf.multilayer_stack_rt, one, wvl, pol, aoi, n0)
+            rl[idx], tl[idx] = complex(a), complex(b)
+    if case.get('order', 'batch-first') == 'loop-first':
+        loop()
+    r, t = _twice(ctx, stack, wvl, pol, aoi, n0, argt, desc)
+    U.check_shape(r, B, 'batch:r')
+    U.check_shape(t, B, 'batch:t')
+    keep_r, keep_t = np.array(r, copy=True), np.array(t, copy=True)
+    if case.get('order', 'batch-first') != 'loop-first':
+        loop()
+    # next to grazing incidence / the critical angle a last-bit difference in a sine is amplified by 1/cos (1/cos^2 in the worst case)
+    cmin = max(min([math.cos(th0)] + [_cos_in(n0, th0, float(x)) for x in np.real(n).ravel()]), 1e-150)
+    if num == 'f32':
+        rt_ = 1e-4 + 1e-5 / cmin      # the batched and the scalar path round differently in float32 (observed 6e-4 at cos = 8e-4)
+    elif f > FMAX:
+        rt_ = 1e-11 + 1e-13 / cmin ** 2
+    else:
+        rt_ = 1e-11
+    zb = ':thickness-map-with-zeros' if mixed_zero else ''
+    U.check_close(r, rl, rt_, 'batch:%s:r%s' % (pol, zb), 'batched r vs loop, %s' % desc, atol=rt_ * 0.01)
+    U.check_close(t, tl, rt_, 'batch:%s:t%s' % (pol, zb), 'batched t vs loop, %s' % desc, atol=rt_ * 0.01)
+    # the caller owns the results: another batch of the same shape (layers reversed in the interior, other wavelength), then the first results again
+    other = np.stack([np.real(n) + 0.5, np.real(d) * 0.5 + 0.125 * (wvl if wexp else 1.0)], axis=1)
+    ctx.call(tf.multilayer_stack_rt, other, wvl * 1.1, pol, 0.0, n0)
+    U.check_equal(np.asarray(r), keep_r, 'batch:result-overwritten', 'r of the first batched call changed after a later call (%s)' % desc)
+    U.check_equal(np.asarray(t), keep_t, 'batch:result-overwritten', 't of the first batched call changed after a later call (%s)' % desc)
 
 
 CLAUSES = [
     HypClause('energy', strat_energy, check_energy, examples={'quick': 1500, 'thorough': 8000}, shards={'quick': 2, 'thorough': 8}),
     HypClause('fresnel', strat_fresnel, check_fresnel, examples={'quick': 1200, 'thorough': 6000}, shards={'quick': 2, 'thorough': 8}),
     HypClause('absentee', strat_absentee, check_absentee, examples={'quick': 1000, 'thorough': 5000}, shards={'quick': 2, 'thorough': 8}),
-    HypClause('batch', strat_batch, check_batch, examples={'quick': 300, 'thorough': 1500}, shards={'quick': 2, 'thorough': 8}),
+    HypClause('batch', strat_batch, check_batch, examples={'quick': 400, 'thorough': 1500}, shards={'quick': 2, 'thorough': 8}),
 ]
